@@ -11,6 +11,7 @@
 # WITHOUT WARRANTIES OR CONDITIONS OF ANY KIND, either express or implied.
 # See the License for the specific language governing permissions and
 # limitations under the License.
+import networkx as nx
 import vermouth.molecule
 from vermouth.log_helpers import StyleAdapter, get_logger
 from vermouth.processors.annotate_mut_mod import parse_residue_spec
@@ -23,9 +24,14 @@ def _patch_protein_termini(meta_molecule, ter_mods=['N-ter', 'C-ter']):
     """
     make a resspec for a protein with correct terminal modification
     """
-    protein_termini = [({'resid': 1, 'resname': meta_molecule.nodes[0]['resname']}, ter_mods[0])]
-    max_resid = meta_molecule.max_resid
-    last_node = max_resid - 1
+    # the termini are the residues with the lowest and highest resid; node
+    # keys and the first resid are not necessarily 0 and 1
+    resids = nx.get_node_attributes(meta_molecule, 'resid')
+    first_node = min(resids, key=resids.get)
+    last_node = max(resids, key=resids.get)
+    protein_termini = [({'resid': resids[first_node],
+                         'resname': meta_molecule.nodes[first_node]['resname']}, ter_mods[0])]
+    max_resid = resids[last_node]
     last_resname = meta_molecule.nodes[last_node]['resname']
     if len(ter_mods) > 1:
         last_mod = ({'resid': max_resid, 'resname': last_resname}, ter_mods[1])
@@ -33,7 +39,7 @@ def _patch_protein_termini(meta_molecule, ter_mods=['N-ter', 'C-ter']):
     else:
         # if only one mod in ter_mods, apply the mod to both start and end residue
         LOGGER.info("Only one terminal modification specified. "
-                    f"Will apply {ter_mods[0]} to both {meta_molecule.nodes[0]['resname']}1 and {last_resname}{max_resid}")
+                    f"Will apply {ter_mods[0]} to both {meta_molecule.nodes[first_node]['resname']}{resids[first_node]} and {last_resname}{max_resid}")
         protein_termini.append(({'resid': max_resid, 'resname': last_resname}, ter_mods[0]))
 
     return protein_termini
@@ -74,7 +80,9 @@ def apply_mod(meta_molecule, modifications):
             else:
                 mod_atoms[mod_atom['atomname']] = {}
 
-        target_residue = meta_molecule.nodes[target_resid - 1]
+        target_node = [node for node, resid in meta_molecule.nodes(data='resid')
+                       if resid == target_resid][0]
+        target_residue = meta_molecule.nodes[target_node]
         # takes care to skip all residues that come from an itp file
         if not target_residue.get('from_itp', 'False'):
             LOGGER.warning("meta_molecule has come from itp. Will not attempt to modify.")
